@@ -23,6 +23,9 @@ func c17Clients(nSeeds int) []gridClient {
 		}
 		out = append(out, g)
 	}
+	// specs whose key_share list is every ordered list of <= 2 groups (hybrid ones included), so that a
+	// group is requested that the hello lists next to a hybrid share carrying the same classical curve
+	out = append(out, shareListClients(2)...)
 	return out
 }
 
@@ -322,7 +325,8 @@ func c17Scenario(clients []gridClient) *explore.Scenario {
 				} else if ks1 := h1.Find(51); ks1 != nil {
 					if s1, _ := wire.ParseKeyShares(ks1.Body); s1 != nil {
 						for _, s := range s1 {
-							if bytes.Equal(s.Data, shares[0].Data) {
+							if bytes.Equal(s.Data, shares[0].Data) || (len(shares[0].Data) >= 32 && len(s.Data) > len(shares[0].Data) && bytes.Contains(s.Data, shares[0].Data)) {
+								// (also as a part of a longer share: the classical half of a hybrid share)
 								r.Violate("C17|keyshare-not-fresh", "%s: CH2 reuses key material of CH1", what)
 							}
 						}
